@@ -18,15 +18,15 @@ TB = ("Trusted: go/packages+go/types+go/ssa (x/tools v0.29.0), the VTA call grap
       "(one reason per line). Decides structural necessary conditions only; runtime-value clauses listed in the "
       "evidence file under does_not_decide stay with testing.")
 
-claim("C05", "R15,R16,R17,R24,R25,R26,R27,R33", "who-uses analysis of the output file and its buffered writer (every byte counted, size = final count); must-pass-through path analysis of mergeToWriter against may-write summaries; edge-sensitive byte-copy guard; sentinel writer/reader checks; index-space typing; loop coverage",
+claim("C05", "R10,R15,R16,R17,R24,R25,R26,R27,R33", "who-uses analysis of the output file and its buffered writer (every byte counted, size = final count); must-pass-through path analysis of mergeToWriter against may-write summaries; edge-sensitive byte-copy guard; sentinel writer/reader checks; index-space typing; loop coverage",
       "Decides that every merged byte passes the counting writer and the reported size is its final count, stored bytes are copied only under fieldsSame and an empty drop bitmap, dropped documents get the sentinel and nothing is written for them, and the field table cannot be written at offset 0 (known finding F6 on the no-survivor path). Does not decide consecutive renumbering or stored content.", TB, "DESIGN.md §3 R16, §4 C05, §5 F6")
-claim("C07", "R11,R12,R31", "must-assign typestate of the encoding tag in PostingsList.read + reset-completeness check of every reuse path (whole-struct zero store, carried-field allow-list, cleaning calls) over go/ssa",
-      "Decides that a reused postings list / iterator starts from a fully reset state except tabled buffers that are cleaned, and that a decoded list's encoding tag is defined. Does not decide cursor lock-step under Next/Advance.", TB, "DESIGN.md §3 R11 R12, §4 C07")
+claim("C07", "R11,R12,R31,R36", "must-assign typestate of the encoding tag in PostingsList.read + reset-completeness check of every reuse path (whole-struct zero store, carried-field allow-list, cleaning calls) over go/ssa",
+      "Decides that a reused postings list / iterator starts from a fully reset state except tabled buffers that are cleaned, and that a decoded list's encoding tag is defined; that every freq/norm record reader (read and skip forms) consumes the norm word exactly when the decoded frequency is non-zero (R36). Does not decide cursor lock-step under Next/Advance.", TB, "DESIGN.md §3 R11 R12, §4 C07")
 claim("C08", "R11,R32", "must-assign typestate over go/ssa: tag field stored on every successful path of read, or every caller decodes into a fresh object",
       "Decides that the scratch list reused by the dictionary iterator cannot keep a stale 1-hit tag (the mechanism the property's counts depend on). Does not decide automaton/range filtering or ordering.", TB, "DESIGN.md §3 R11, §4 C08")
 claim("C10", "R10,R1", "field-coverage effect analysis of Reset/Set/newWithChunkMode for every pooled builder struct, slice re-extension classification, dominance of Put by successful reset, global-write effect summary over the call graph, pool ownership typestate",
       "Decides that every field of the pooled builder state has a re-initialisation point, truncated slices are not re-extended over stale elements, the builder returns to the pool only after a successful reset, and the build path writes no package-level state. Does not decide 're-initialised before first read on every path'.", TB, "DESIGN.md §3 R10 R1, §4 C10")
-claim("C11", "R1,R2", "put-count typestate with bottom-up callee summaries (pool ownership) + must-hold lockset analysis with caller-propagated requirements + atomic-only field check over go/ssa",
+claim("C11", "R1,R2,R3,R4,R5", "put-count typestate with bottom-up callee summaries (pool ownership) + must-hold lockset analysis with caller-propagated requirements + atomic-only field check over go/ssa",
       "Decides single ownership of pooled scratch contexts, that tabled shared fields are only accessed under their mutex, and that the section registry is written only at init. Does not prove data-race freedom.", TB, "DESIGN.md §3 R1 R2, §4 C11")
 claim("C16", "R21,R22,R2,R6", "data+control-dependence taint (post-dominator based) from per-call arguments to shared cache stores with interprocedural summaries; reference-taking must-pass-through on hand-out paths; eviction guard truth table; who-may-call for Close; lockset",
       "Decides that cache entry content is independent of the per-call exclusion bitmap, that every hand-out takes a reference, that eviction happens only at zero references after removal from the map, and that only cacheEntry.close closes a cached index. Does not decide timing of the monitor goroutine.", TB, "DESIGN.md §3 R21 R22, §4 C16")
@@ -39,28 +39,30 @@ claim("C19", "R7,R6", "dropped-error enumeration scoped to calls reaching go-fai
 claim("C20", "R9,R6,R2", "guard truth-table evaluation over the orderings of the decremented count, who-may-call for Unmap/file Close, control-dependence of the descriptor close, ordering of cache clearing before Unmap, exit discipline of Open, lockset on refs",
       "Decides that the mapping is released exactly at the 1->0 guard under the mutex by a single owner, Open starts at 1 and closes on every failure exit, caches are cleared before unmapping, and the in-memory Close is harmless. Does not decide OS-level release.", TB, "DESIGN.md §3 R9, §4 C20")
 
-claim("C01", "R13,R14,R28,R29,R30,R31", "provenance classification of every getChunkSize call site (role from where the result flows, kind from where the arguments come) + format-constant table check, in both build-tag configurations",
-      "Narrow claim. Decides that the build writer, the merge writer and the reader derive the postings chunk size from (the segment's chunk mode, a postings cardinality, the segment's document count) alike, and that the encoding constants have their v16 values. Does not decide which hits/frequencies/locations come back.", TB, "DESIGN.md §3 R13 R14, §4 C01")
-claim("C02", "R19,R26,R27,R33,R10", "path analysis of the stored-field visitor loop (pending/stop typestate over visitor results, edge-sensitive), truth-table evaluation of the document-number guard over the orderings of (num, numDocs), natural-loop exit analysis of DocNumbers",
+claim("C01", "R13,R14,R28,R29,R30,R31,R36", "provenance classification of every getChunkSize call site (role from where the result flows, kind from where the arguments come) + format-constant table check, in both build-tag configurations",
+      "Narrow claim. Decides that the build writer, the merge writer and the reader derive the postings chunk size from (the segment's chunk mode, a postings cardinality, the segment's document count) alike, and that the encoding constants have their v16 values; that per-term accumulators are reset, every encoded location component comes from that location, and the norm word of a posting is written and consumed exactly when its frequency is non-zero (R36). Does not decide which hits/frequencies/locations come back.", TB, "DESIGN.md §3 R13 R14, §4 C01")
+claim("C02", "R19,R26,R27,R33,R10,R29", "path analysis of the stored-field visitor loop (pending/stop typestate over visitor results, edge-sensitive), truth-table evaluation of the document-number guard over the orderings of (num, numDocs), natural-loop exit analysis of DocNumbers",
       "Decides that a visitor's stop request is honoured on every path, that document numbers at or beyond Count never index the stored table, and that DocNumbers looks at every given id. Does not decide byte-for-byte round trip of stored values.", TB, "DESIGN.md §3 R19 R26, §4 C02")
 claim("C03", "R13,R4,R20,R15,R26,R27,R31", "chunk-size provenance classification; receiver-provenance analysis of mutating docValueReader methods (clone-before-mutate); edge-sensitive typestate of a reused visit state (fresh / compared / stale); sibling effect comparison and loop-coverage of the two loaders",
       "Decides that doc-value writers and reader derive the chunk size identically, shared readers are only used through private clones, a reused visit state is validated against the segment and emptied when it differs, and both loaders visit every field with the same effects. Does not decide the terms returned.", TB, "DESIGN.md §3 R13 R4 R20 R15 R26, §4 C03")
 claim("C04", "R15,R14,R26,R27,R6", "who-writes analysis of SegmentBase.mem over the call graph; footer writer sequence extraction and loop-free affine path enumeration of the footer reader against the frozen v16 table; CRC fold/seed checks; argument-role checks at both persistFooter call sites and at InitSegmentBase; loader sibling comparison",
       "Decides that Persist and WriteTo share the one writer routine, that the footer writer and reader equal the v16 table (order, widths, roles, CRC last and seeded, FooterSize, Version), that the in-memory segment is initialised from the bytes/CRC/chunk mode/offsets of its own build, and that the loader siblings agree. Does not decide equality of answers.", TB, "DESIGN.md §3 R15 R14, §4 C04")
-claim("C06", "R13,R17,R24,R18,R25,R26,R28,R29,R12,R31,R32,R33,R34", "chunk-size provenance classification in the merge writer; edge-sensitive path analysis of the byte-copy guard with provenance of fieldsSame; dominance of every use of a remapped number by a sentinel test on a structurally equal element; address-wiring effect summaries; index-space typing of per-segment vs per-field compacted tables; loop coverage",
+claim("C06", "R13,R17,R24,R18,R25,R26,R28,R29,R12,R31,R32,R33,R34,R36", "chunk-size provenance classification in the merge writer; edge-sensitive path analysis of the byte-copy guard with provenance of fieldsSame; dominance of every use of a remapped number by a sentinel test on a structurally equal element; address-wiring effect summaries; index-space typing of per-segment vs per-field compacted tables; loop coverage",
       "Decides that the merge derives postings/doc-value chunk sizes like the reader, copies posting bytes only under fieldsSame, tests every remapped document number against the drop sentinel before use, records section addresses, and never mixes segment-position and active-position indexes. Does not decide merged values.", TB, "DESIGN.md §3 R13 R17 R24 R18 R25, §4 C06")
-claim("C09", "R14,R13,R27,R30,R32", "footer writer/reader extraction against the frozen v16 table, format-constant and format-variable value checks (go/types constants, package initialiser stores), chunk-size provenance classification",
+claim("C09", "R14,R13,R25,R27,R28,R30,R32,R36", "footer writer/reader extraction against the frozen v16 table, format-constant and format-variable value checks (go/types constants, package initialiser stores), chunk-size provenance classification",
       "Decides that the footer as written and as read is the documented v16 footer and that the numeric format constants/variables have their v16 values; plus chunk derivation kinds. Below the footer it decides only the fixed-width big-endian records (field-table pairs, fields index, stored-document index, doc-value trailer: widths, strides, order — R27). The chunk-size rule itself is compared region by region with the documented v16 rule (R30: path enumeration, intervals on the parameters, canonical result expressions; nothing is evaluated). Does NOT decide the uvarint streams, and cannot read frozen files.", TB, "DESIGN.md §3 R14 R13, §4 C09")
-claim("C13", "R18,R24,R25,R26,R12", "address-wiring effect summaries on the synonym section; sentinel-test dominance for remapped document numbers; index-space typing (segment-position vs active-position tables) in mergeAndPersistSynonymSection; loop coverage",
-      "Narrow claim. Decides that merged thesaurus addresses and the field->thesaurus map are recorded, remapped numbers are tested against the drop sentinel before being encoded, and the per-field compacted tables (thesauri, drops, newDocNums) are indexed in their own space. Does not decide the surviving (synonym, document) pairs.", TB, "DESIGN.md §3 R18 R24 R25, §4 C13")
+claim("C13", "R18,R24,R25,R26,R12,R28,R35", "address-wiring effect summaries on the synonym section; sentinel-test dominance for remapped document numbers; index-space typing (segment-position vs active-position tables) in mergeAndPersistSynonymSection; loop coverage",
+      "Narrow claim. Decides that merged thesaurus addresses and the field->thesaurus map are recorded, remapped numbers are tested against the drop sentinel before being encoded, and the per-field compacted tables (thesauri, drops, newDocNums) are indexed in their own space; that the per-field synonym-id maps and the id counter are reset together (R28b) and the (id, document) code is split at bit 32 on both sides (R35). Does not decide the surviving (synonym, document) pairs.", TB, "DESIGN.md §3 R18 R24 R25, §4 C13")
 claim("C15", "R18,R24,R25", "address-wiring effect summaries with an edge-sensitive non-empty guard on the merged vector section address; sentinel-test dominance; index-space typing in the vector merge",
       "Narrow claim (vectors tag, through the go-faiss stub). Decides that the merged vector section address is recorded on the merge path and only when a vector survived, and that vectors of dropped documents are filtered by the sentinel test. Does not decide which vectors the native library holds.", TB, "DESIGN.md §3 R18 R24, §4 C15")
 
 claim("C14", "R23", "edge-sensitive path analysis of the search closures built by InterpretVectorIndex (non-nil and dimension guards before every engine call), provenance of the exclusion list and of the id->doc map (single-assignment captured variables fed by the cache load of this call)",
       "Narrow claim (vectors tag, through the go-faiss stub). Decides that queries of the wrong dimension or on fields without an index never reach the engine, that the unfiltered search passes the exclusion list computed from this call's except bitmap, and that only ids found in the id->doc map are emitted. Does not decide scores, top-k or selector choice.", TB, "DESIGN.md §3 R23, §4 C14")
 
+claim("C12", "R35,R12,R31", "pattern analysis of the (id, document) code constructor and destructor (shift widths, operand order); edge-sensitive path analysis of the synonym iterator (a decoded pair is returned only after its document passed the exclusion test); who-writes analysis of the exclusion-check list, shape of the exclusion predicate, and guard analysis in front of invertedIndexOpaque.process; reset-completeness of the reused synonyms list / iterator",
+      "Narrow claim. Decides that encodeSynonym and decodeSynonym are inverse (id high, document low, split at bit 32), that the iterator hands out a pair only if its document is not excluded, that synonym fields are kept out of the ordinary term dictionaries (registered exclusion check, frozen list, guarded process call), and that reused synonyms lists and iterators are fully reset. Does NOT decide which pairs a batch defines, synonym-id assignment, term ordering or persist/re-open equality of answers.", TB, "DESIGN.md §3 R35, §4 C12")
+
 NOT_APPLICABLE = {
- "C12": "quantifies over synonym ids, 64-bit (id,doc) codes and iteration order of runtime maps; the one shape-visible clause (exclusion of synonym fields from the inverted section) is an optimisation, not a necessary condition, so no sound structural clause remains (DESIGN.md §4)",
 }
 PENDING = {}
 for i in range(1, 21):
